@@ -119,9 +119,9 @@ class Rule:
 
     def finish(self):
         if self.floor is not None and self.obligations < self.floor:
-            raise Broken(self.rep.prop, 'floor',
-                         'rule %s matched %d instances, floor is %d (anchor renamed or rule matching nothing)'
-                         % (self.id, self.obligations, self.floor))
+            return ('rule %s matched %d instances, floor is %d (anchor renamed or rule matching nothing)'
+                    % (self.id, self.obligations, self.floor))
+        return None
 
 
 class Report:
@@ -174,8 +174,7 @@ def run_check(prop, fn, tier, repo, explanation, assumptions, not_decided):
             rep.alias = {}
             rep.suffix = ''
             rep.tier = tier
-        for r in rep.rules:
-            r.finish()
+        floor_msgs = [m for m in (r.finish() for r in rep.rules) if m]
     except Broken as b:
         print('CHECK-BROKEN property=%s reason=%s %s' % (prop, b.kind, b.msg))
         try:
@@ -193,6 +192,19 @@ def run_check(prop, fn, tier, repo, explanation, assumptions, not_decided):
             pass
         return 2
     known = {k['key']: k for k in load_known()['findings'] if k['property'] == prop}
+    if floor_msgs:
+        # a rule that matched fewer instances than confirmed by hand is a broken check -- unless another rule already reports
+        # a violation on this tree, in which case the violation is the more useful answer
+        has_new = any((key not in known and key.replace('@rel', '') not in known) for r in rep.rules for (key, _, _) in r.violations)
+        if not has_new:
+            print('CHECK-BROKEN property=%s reason=floor %s' % (prop, '; '.join(floor_msgs)))
+            try:
+                os.remove(ev_path)
+            except OSError:
+                pass
+            return 2
+        for m in floor_msgs:
+            print('  note: %s' % m)
     new = []
     kf = []
     for r in rep.rules:
